@@ -1,7 +1,7 @@
 """Logging shims for the concurrent receiver (taskiq/receiver/receiver.py), installed from the driver process.
 
 Nothing in /repo is edited: `taskiq.receiver.receiver.asyncio` is replaced by a module object that forwards to
-the real asyncio except for Queue / wait / create_task; the two semaphores and the finish event are logging
+the real asyncio except for Queue / wait (task creation is observed by the loop's task factory, whichever API is used); the two semaphores and the finish event are logging
 subclasses; prefetcher / runner / callback are wrapped as *instance attributes* only to tag the running task
 with a role; a task factory on the driver's loop logs every task created while a message's callback task is running
 (`bg.new i` / `bg.done i`: work spawned for message i).  Every shim appends `[t_us, tag, a, b]` to one global raw log; `to_lts` maps the raw log to
@@ -57,6 +57,21 @@ def make_event(log):
     return LEvent()
 
 
+def adopt_event(ev, log):
+    """an asyncio.Event object that somebody else created (the worker's entry point: its signal handlers set it) becomes a
+    logging one IN PLACE: the same object, the class of make_event's (no state of its own); a repeated set() - a second
+    signal - is logged once"""
+    cls = type(make_event(log))
+
+    class LEventOnce(cls):
+        def set(self):
+            if not asyncio.Event.is_set(self):
+                cls.set(self)
+
+    ev.__class__ = LEventOnce
+    return ev
+
+
 def install(rmod, log, ident):
     """replace `asyncio` inside taskiq.receiver.receiver; ident(message) -> message id (int)"""
 
@@ -88,9 +103,9 @@ def install(rmod, log, ident):
             log.add("waited", len(p))
         return d, p
 
-    def create_task(coro, **kw):
-        r = role()
-        t = asyncio.create_task(coro, **kw)
+    def note_created(t, r):
+        """called by the task factory for a task created while the prefetcher (r == "pf") or the runner (r == "rn") is the
+        running task - whatever API made it (asyncio.create_task, loop.create_task, ensure_future)"""
         if r == "pf":
             log.add("la.new")
         elif r == "rn":
@@ -102,17 +117,12 @@ def install(rmod, log, ident):
             got = LAST_GET.pop("id", None)
             t._vexpect = got
             log.add("spawn", made_for if made_for is not None else got)
-        return t
 
     class Shim(types.ModuleType):
         def __getattr__(self, n):
             return getattr(asyncio, n)
 
-    def task_factory(loop, coro, **kw):
-        """every asyncio Task created on the loop while a message's callback task (or a task that one created) is the
-        running task is work spawned for that message - whatever API made it (create_task, ensure_future, loop.create_task):
-        `bg.new i` at creation, `bg.done i` from its done-callback"""
-        t = asyncio.Task(coro, loop=loop, **kw)
+    def tag(t, loop):
         try:
             cur = asyncio.current_task(loop)
         except RuntimeError:
@@ -122,13 +132,37 @@ def install(rmod, log, ident):
             t._vmsg = owner
             log.add("bg.new", owner)
             t.add_done_callback(lambda _t: log.add("bg.done", owner))
+        r = getattr(cur, "_vrole", None) if cur is not None else None
+        if r in ("pf", "rn"):
+            note_created(t, r)
         return t
 
-    log.loop.set_task_factory(task_factory)
+    def task_factory(loop, coro, **kw):
+        """every asyncio Task created on the loop while a message's callback task (or a task that one created) is the
+        running task is work spawned for that message - whatever API made it (create_task, ensure_future, loop.create_task):
+        `bg.new i` at creation, `bg.done i` from its done-callback"""
+        # (the loop may already have a task factory - chosen by whoever created / configured the loop, e.g. the worker's entry
+        # point: that one makes the task, this one only tags it)
+        return tag(asyncio.Task(coro, loop=loop, **kw) if prev_factory is None else prev_factory(loop, coro, **kw), loop)
+
+    prev_factory = log.loop.get_task_factory()
+    eager = getattr(asyncio, "eager_task_factory", None)
+    if prev_factory is not None and eager is not None and getattr(prev_factory, "__code__", None) is eager.__code__ \
+            and getattr(prev_factory, "__closure__", None):
+        # an eager task factory (asyncio.eager_task_factory / create_eager_task_factory(ctor)): libraries recognise it by its
+        # code object (anyio does, to start its own tasks lazily).  Stay recognisable: the same kind of factory over a task
+        # constructor that tags what the original constructor makes
+        ctor = prev_factory.__closure__[0].cell_contents
+
+        def tagging_ctor(coro, *, loop=None, **kw):
+            return tag(ctor(coro, loop=loop, **kw), loop)
+
+        log.loop.set_task_factory(asyncio.create_eager_task_factory(tagging_ctor))
+    else:
+        log.loop.set_task_factory(task_factory)
     shim = Shim("asyncio_logging_shim")
     shim.Queue = LQueue
     shim.wait = wait
-    shim.create_task = create_task
     rmod.asyncio = shim
     return shim
 
